@@ -218,25 +218,25 @@ Ltac bool_lia :=
          end; cbn [andb orb negb]; first [reflexivity | lia].
 
 Theorem gen_day_ok_eq : forall d, G.day_ok_g d = Some (day_ok_m d).
-Proof. intros d. unfold G.day_ok_g, day_ok_m. f_equal. bool_lia. Qed.
+Proof. intros d. unfold G.day_ok_g, day_ok_m. apply f_equal. bool_lia. Qed.
 Theorem gen_month_ok_eq : forall m, G.month_ok_g m = Some (month_ok_m m).
-Proof. intros m. unfold G.month_ok_g, month_ok_m. f_equal. bool_lia. Qed.
+Proof. intros m. unfold G.month_ok_g, month_ok_m. apply f_equal. bool_lia. Qed.
 Theorem gen_year_ok_eq : forall y, G.year_ok_g y = Some (year_ok_m y).
-Proof. intros y. unfold G.year_ok_g, year_ok_m. f_equal. bool_lia. Qed.
+Proof. intros y. unfold G.year_ok_g, year_ok_m. apply f_equal. bool_lia. Qed.
 Theorem gen_weekday_ok_eq : forall w, G.weekday_ok_g w = Some (weekday_ok_m w).
-Proof. intros w. unfold G.weekday_ok_g, weekday_ok_m. f_equal. bool_lia. Qed.
+Proof. intros w. unfold G.weekday_ok_g, weekday_ok_m. apply f_equal. bool_lia. Qed.
 Theorem gen_wdi_ok_eq : forall w i, G.wdi_ok_g w i = Some (wdi_ok_m w i).
-Proof. intros w i. unfold G.wdi_ok_g, wdi_ok_m, weekday_ok_m. f_equal. bool_lia. Qed.
+Proof. intros w i. unfold G.wdi_ok_g, wdi_ok_m, weekday_ok_m. apply f_equal. bool_lia. Qed.
 Theorem gen_wdl_ok_eq : forall w, G.wdl_ok_g w = Some (wdl_ok_m w).
-Proof. intros w. unfold G.wdl_ok_g, wdl_ok_m, weekday_ok_m. f_equal. bool_lia. Qed.
+Proof. intros w. unfold G.wdl_ok_g, wdl_ok_m, weekday_ok_m. apply f_equal. bool_lia. Qed.
 Theorem gen_mdl_ok_eq : forall m, G.mdl_ok_g m = Some (mdl_ok_m m).
-Proof. intros m. unfold G.mdl_ok_g, mdl_ok_m, month_ok_m. f_equal. bool_lia. Qed.
+Proof. intros m. unfold G.mdl_ok_g, mdl_ok_m, month_ok_m. apply f_equal. bool_lia. Qed.
 Theorem gen_ym_ok_eq : forall y m, G.ym_ok_g y m = Some (ym_ok_m y m).
-Proof. intros y m. unfold G.ym_ok_g, ym_ok_m, year_ok_m, month_ok_m. f_equal. bool_lia. Qed.
+Proof. intros y m. unfold G.ym_ok_g, ym_ok_m, year_ok_m, month_ok_m. apply f_equal. bool_lia. Qed.
 Theorem gen_ymdl_ok_eq : forall y m, G.ymdl_ok_g y m = Some (ymdl_ok_m y m).
-Proof. intros y m. unfold G.ymdl_ok_g, ymdl_ok_m, mdl_ok_m, year_ok_m, month_ok_m. f_equal. bool_lia. Qed.
+Proof. intros y m. unfold G.ymdl_ok_g, ymdl_ok_m, mdl_ok_m, year_ok_m, month_ok_m. apply f_equal. bool_lia. Qed.
 Theorem gen_ymwdl_ok_eq : forall y m w, G.ymwdl_ok_g y m w = Some (ymwdl_ok_m y m w).
-Proof. intros y m w. unfold G.ymwdl_ok_g, ymwdl_ok_m, wdl_ok_m, weekday_ok_m, year_ok_m, month_ok_m. f_equal. bool_lia. Qed.
+Proof. intros y m w. unfold G.ymwdl_ok_g, ymwdl_ok_m, wdl_ok_m, weekday_ok_m, year_ok_m, month_ok_m. apply f_equal. bool_lia. Qed.
 
 (* the table of last_day_of_month and the month-length function of Model.v agree on months 1..12 *)
 Lemma ld_val_model y m : month_ok_m m = true -> ld_val y m = last_day_of_month_m y m.
@@ -254,9 +254,8 @@ Proof.
   intros y m d.
   pose proof (gen_last_day_of_month_eq y m) as H. unfold G.last_day_of_month_g in H.
   unfold G.ymd_ok_g. rewrite H. cbn [obind].
-  unfold ymd_ok_m. fold (year_ok_m y). change ((m >? 0) && (m <=? 12)) with ((m >? 0) && (m <=? 12)).
+  unfold ymd_ok_m. fold (year_ok_m y).
   replace ((m >? 0) && (m <=? 12)) with (month_ok_m m) by (unfold month_ok_m; rewrite Z.gtb_ltb; reflexivity).
-  rewrite Bool.negb_involutive.
   destruct (negb (year_ok_m y) || negb (month_ok_m m)) eqn:E; [reflexivity|].
   assert (Hm : month_ok_m m = true) by (destruct (month_ok_m m); [reflexivity|rewrite Bool.orb_true_r in E; discriminate]).
   rewrite <- (ld_val_model y m Hm). change (wrap_ty u8 1) with 1. rewrite Z.geb_leb.
